@@ -419,6 +419,25 @@ pub const GROUPS: &[(&str, &[(&str, &[Sel])])] = &[
             ),
         ],
     ),
+    // renetcode server: packets to a connected client
+    (
+        "NcServerSend",
+        &[
+            (
+                "renetcode/src/lib.rs",
+                &[Sel::Const("NETCODE_MAX_PAYLOAD_BYTES"), Sel::Const("NETCODE_SEND_RATE")],
+            ),
+            (
+                "renetcode/src/server.rs",
+                &[
+                    Sel::Fn("find_client_mut_by_id"),
+                    Sel::Method("NetcodeServer", "generate_payload_packet"),
+                    Sel::Method("NetcodeServer", "update_client"),
+                    Sel::Method("NetcodeServer", "disconnect"),
+                ],
+            ),
+        ],
+    ),
 ];
 
 pub fn work_list() -> Vec<WorkItem> {
@@ -503,6 +522,15 @@ pub const BORROWED_FIELDS_OK: &[(&str, &str, &str)] = &[(
     "ServerResult",
     "result type only: its `&'s mut [u8]` payloads are slices of the server's scratch buffer `out`, built in return \
      position; the value is the snapshot of those bytes at the return (the buffer is rewritten before it is read again)",
+)];
+
+/// Functions whose RETURN type holds a `&mut` reference that is nevertheless translated by value: (file, fn, justification).
+/// (Finders — see `FnInfo::ref_ret` — need no entry; every other `&mut` in a return type is a TRANSLATE-ERROR.)
+pub const BORROWED_RETURN_OK: &[(&str, &str, &str)] = &[(
+    "renetcode/src/server.rs",
+    "NetcodeServer::generate_payload_packet",
+    "returns `&mut self.out[..len]`, a slice of the scratch buffer built in return position: the value is the snapshot of \
+     those bytes at the return",
 )];
 
 /// External types that are not translated but mapped to an opaque RustSem type
